@@ -269,13 +269,18 @@ macro_rules! aops {
                     // positional adaptors (nth / skip / step_by / last / count / size_hint), on iter() and
                     // iter_mut(): even positions from one pass, odd positions from another
                     13 => {
+                        // the reference is the iterator's OWN next()-sequence (no order is promised
+                        // relative to entities() or between iter() and iter_mut())
                         let n = w.$f.len();
+                        let mut s_iter: Vec<Tok> = Vec::new();
+                        for x in w.$f.iter() { s_iter.push(tok(*x.0)); }
+                        let mut s_mut: Vec<Tok> = Vec::new();
+                        for x in w.$f.iter_mut() { s_mut.push(tok(*x.0)); }
                         let k = if n == 0 { 0 } else { (n / 2).min(3) };
-                        let want_k = w.$f.entities().get(k).map(|e| tok(*e));
-                        if w.$f.iter().nth(k).map(|x| tok(*x.0)) != want_k || w.$f.iter_mut().nth(k).map(|x| tok(*x.0)) != want_k {
+                        if w.$f.iter().nth(k).map(|x| tok(*x.0)) != s_iter.get(k).copied() || w.$f.iter_mut().nth(k).map(|x| tok(*x.0)) != s_mut.get(k).copied() {
                             reg::with(|r| r.anomalies.push(format!("iter_nth:{}:{}", stringify!($A), k)));
                         }
-                        if w.$f.iter_mut().last().map(|x| tok(*x.0)) != w.$f.entities().last().map(|e| tok(*e)) {
+                        if w.$f.iter_mut().last().map(|x| tok(*x.0)) != s_mut.last().copied() || w.$f.iter().last().map(|x| tok(*x.0)) != s_iter.last().copied() {
                             reg::with(|r| r.anomalies.push(format!("iter_mut_last:{}", stringify!($A))));
                         }
                         {
@@ -294,12 +299,14 @@ macro_rules! aops {
                         for (e, $($c),*) in w.$f.iter_mut().skip(1).step_by(2) { odd.push((tok(*e), vec![$(rd(&*$c)),*])); }
                         let mut oi = odd.into_iter();
                         for r in even { out.push(r); if let Some(o) = oi.next() { out.push(o); } }
-                        // the same through iter(): must present the same rows in the same order
+                        if out.iter().map(|r| r.0).collect::<Vec<_>>() != s_mut {
+                            reg::with(|r| r.anomalies.push(format!("iter_skip_take_order:{}:mut", stringify!($A))));
+                        }
                         let mut again: Vec<Tok> = Vec::new();
                         let half: Vec<Tok> = w.$f.iter().skip(n / 2).map(|x| tok(*x.0)).collect();
                         again.extend(w.$f.iter().take(n / 2).map(|x| tok(*x.0)));
                         again.extend(half);
-                        if again != out.iter().map(|r| r.0).collect::<Vec<_>>() {
+                        if again != s_iter {
                             reg::with(|r| r.anomalies.push(format!("iter_skip_take_order:{}", stringify!($A))));
                         }
                     }
@@ -317,7 +324,9 @@ macro_rules! aops {
                         let _ = it.peek().is_some();
                         it.skip(1).fold((), |_, (e, $($c),*)| out.push((tok(*e), vec![$(rd(&*$c)),*])));
                         let last = w.$f.iter().last().map(|x| tok(*x.0));
-                        if last != w.$f.entities().last().map(|e| tok(*e)) { reg::with(|r| r.anomalies.push(format!("iter_last:{}", stringify!($A)))); }
+                        let mut own_last: Option<Tok> = None;
+                        for x in w.$f.iter() { own_last = Some(tok(*x.0)); }
+                        if last != own_last { reg::with(|r| r.anomalies.push(format!("iter_last:{}", stringify!($A)))); }
                     }
                     9 => { ecs_iter_destroy!(w, |e: &Entity<$A>, $($c: &$T),*| { out.push((tok(*e), vec![$(rd($c)),*])); EcsStep::Continue }); out.reverse(); }
                     10 => { ecs_iter_destroy!(w, |e: &Entity<$A>, $($c: &$T),*| { out.push((tok(*e), vec![$(rd($c)),*])); }); out.reverse(); }
